@@ -29,7 +29,7 @@ TABLE = [(n, sf.A(lambda r: sf.rq(r, -6, 6)), sf.F1(n)) for n in ["erf", "erfc",
 
 def gen(chk, mpmath, rng):
     mp = mpmath.mp
-    for item in sf.samereal(chk, mpmath, rng, TABLE, 8, chk.pick(220, 10000), PROP):
+    for item in sf.samereal(chk, mpmath, rng, TABLE, 8, chk.pick(220, 10000), PROP, hiprec=0.08):
         yield item
     for i in range(chk.pick(160, 5000)):
         p = rng.choice([20, 53, 53, 100, 200]); mp.prec = p
@@ -39,7 +39,7 @@ def gen(chk, mpmath, rng):
                 a, b = rng.randint(1, 7), rng.randint(1, 7); x = Fr(rng.randint(0, 64), 64); X = sf.q2m(mp, x)
                 # B(x; a, b) = sum_k C(b-1, k) (-1)^k x^(a+k) / (a+k)
                 exact = ex.add(*[ex.mul(ex.seqnk("binom", b - 1, k), (-1) ** k, ex.div(ex.powi(ex.Qf(x), a + k), a + k)) for k in range(b)])
-                yield ex.relabs_close(mp.betainc(a, b, 0, X), exact, 8, p), {"key": "exact/betainc(int,int)", "a": a, "b": b, "x": str(x), "p": p, "what": "betainc with integer parameters differs from the exact polynomial value"}
+                yield ex.rel0_close(mp.betainc(a, b, 0, X), exact, 8, p), {"key": "exact/betainc(int,int)", "a": a, "b": b, "x": str(x), "p": p, "what": "betainc with integer parameters differs from the exact polynomial value"}
             elif c < 0.5:
                 x = sf.rq(rng, -5, 5); X = sf.q2m(mp, x)
                 yield ex.le(ex.ab(ex.sub(ex.add(mp.erf(X), mp.erfc(X)), 1)), ex.pow2(6 - p) if False else ex.mul(ex.pow2(8 - p), ex.mx(ex.ab(mp.erf(X)), ex.ab(mp.erfc(X)), 1))), \
